@@ -28,8 +28,8 @@ REQUIRED_FUNCS = ["sempler/utils.py:imec", "sempler/utils.py:dag_to_icpdag", "se
                   "sempler/utils.py:chain_graph_IMEC", "sempler/utils.py:maximally_orient"]
 REQUIRED_COUNTERS = {"quick": {"imec:proper-subclass": 500, "picpdag:valueerror-expected": 500, "picpdag:value-expected": 500, "imec:chain-shortcut": 20},
                      "thorough": {"imec:proper-subclass": 5000, "picpdag:valueerror-expected": 500, "picpdag:value-expected": 500, "imec:chain-shortcut": 20}}
-N = {"quick": {"dag5": 2500, "weighted": 800, "sampled": 150, "chain_max": 10, "chain_I": 6, "pdagI4": 3},
-     "thorough": {"dag5": 0, "weighted": 10000, "sampled": 3000, "chain_max": 12, "chain_I": 24, "pdagI4": 16}}
+N = {"quick": {"dag5": 2500, "weighted": 800, "sampled": 500, "chain_max": 10, "chain_I": 6, "pdagI4": 3},
+     "thorough": {"dag5": 0, "weighted": 40000, "sampled": 12000, "chain_max": 12, "chain_I": 48, "pdagI4": 16}}
 
 
 def gen(tier, seed, shard, nshards):
@@ -48,6 +48,15 @@ def gen(tier, seed, shard, nshards):
         for k, i in enumerate(pick):
             if k % nshards == shard:
                 yield "dagI", {"p": 5, "code3": int(codes[int(i)]), "I": int(rng.integers(1, 31))}
+    # relabelled copies inside 9..13 nodes
+    idx = 0
+    for p in (3, 4):
+        for code in G.all_dag_codes(p):
+            if idx % nshards == shard:
+                rng = util.rng_for("C10", seed, "emb", p, code)
+                for I in sorted(set(int(x) for x in rng.integers(0, 1 << p, 6))):
+                    yield "embedded-dagI", {"p": p, "code3": code, "I": I, "P": 9 + code % 5}
+            idx += 1
     # pdag_to_icpdag
     idx = 0
     for p in (1, 2, 3, 4):
@@ -74,9 +83,14 @@ def gen(tier, seed, shard, nshards):
             rng = util.rng_for("C10", seed, "w", k)
             out = _gc.sampled_dag(("C10", seed, "wd", k), 2, 6, max_edges=10)
             yield "weightedI", {"W": gmat.weighted(rng, out), "I": int(rng.integers(0, 1 << len(out)))}
+    for k in range(n["weighted"] // 2):
+        if k % nshards == shard:
+            W = _gc.near_chain(("C10", seed, "nc", k))
+            rng = util.rng_for("C10", seed, "ncI", k)
+            yield "weightedI", {"W": W, "I": int(rng.integers(0, 1 << len(W)))}
     for k in range(n["sampled"]):
         if k % nshards == shard:
-            out = _gc.sampled_dag(("C10", seed, "sd", k), 6, 9, max_edges=11)
+            out = _gc.sampled_dag(("C10", seed, "sd", k), 6, 12, max_edges=11)
             rng = util.rng_for("C10", seed, "sI", k)
             yield "sampled-dagI", {"masks": out, "I": int(rng.integers(0, 1 << len(out)))}
 
@@ -132,11 +146,30 @@ def judge(family, case, rec):
     import sempler.utils as U
     if family == "dagI":
         out = G.dag_from_code3(case["p"], case["code3"])
-        A = gmat.to_np(out, dtype=float if case["code3"] % 2 else int)
+        A = gmat.hostile_array(gmat.to_np(out, dtype=float if case["code3"] % 2 else int), case["code3"] + case["I"])
         _judge_dag(U, out, A, case["I"], family, case, rec, (case["p"], case["code3"], case["I"]))
+    elif family == "embedded-dagI":
+        small = G.dag_from_code3(case["p"], case["code3"])
+        if G.n_edges(small) < 2:
+            return
+        rng = util.rng_for("C10e", case["p"], case["code3"], case["I"])
+        if (case["code3"] + case["I"]) % 2:
+            pool = list(gmat.HOSTILE_SMALL) + list(gmat.HOSTILE_LARGE)
+            labels = [int(v) for v in rng.choice(pool, case["p"], replace=False)]
+            P = 20
+        else:
+            P = case["P"]
+            labels = [int(v) for v in rng.permutation(P)[:case["p"]]]
+        out = [0] * P
+        for i in range(case["p"]):
+            for j in G.bits(small[i]):
+                out[labels[i]] |= 1 << labels[j]
+        Ibig = sum(1 << labels[t] for t in G.bits(case["I"]))
+        rec.count("embedded:graphs")
+        _judge_dag(U, out, gmat.to_np(out), Ibig, family, case, rec, ("e", case["p"], case["code3"], case["I"]))
     elif family == "sampled-dagI":
         out = list(case["masks"])
-        _judge_dag(U, out, gmat.to_np(out), case["I"], family, case, rec, None)
+        _judge_dag(U, out, gmat.hostile_array(gmat.to_np(out), sum(out) + case["I"]), case["I"], family, case, rec, None)
     elif family == "weightedI":
         W = case["W"]
         _judge_dag(U, gmat.masks(W), W, case["I"], family, case, rec, None)
